@@ -68,8 +68,8 @@ package httpserver
 //@ extern (*bytes.Buffer).Write
 //@ ghost headerCopies int
 //@ func (*ResponseBuffer).CopyHeader
-//@   requires rb != nil
-//@   modifies ghost:headerCopies
+//@   requires rb != nil && rb.ResponseWriterWrapper != nil
+//@   modifies ghost:headerCopies, MV:map[string][]string, MD:map[string][]string
 //@   ensures headerCopies == old(headerCopies) + 1
 //@ func (forcedStatusCodeWriter).WriteHeader
 //@   requires fscw.rb != nil && fscw.ResponseWriter != nil
@@ -81,7 +81,7 @@ package httpserver
 //@   ensures result == !rb.stream
 //@ func (*ResponseBuffer).WriteHeader
 //@   requires rb != nil && rb.ResponseWriterWrapper != nil && rb.ResponseWriterWrapper.ResponseWriter != nil && rb.shouldBuffer != nil
-//@   modifies ghost:headerCopies, ghost:wh, ghost:lastStatus, ResponseBuffer.wroteHeader, ResponseBuffer.status, ResponseBuffer.stream
+//@   modifies ghost:headerCopies, ghost:wh, ghost:lastStatus, ResponseBuffer.wroteHeader, ResponseBuffer.status, ResponseBuffer.stream, MV:map[string][]string, MD:map[string][]string
 //@   ensures [only_first_call_counts] old(rb.wroteHeader) ==> (wh == old(wh) && rb.status == old(rb.status) && rb.stream == old(rb.stream))
 //@   ensures [records_status] !old(rb.wroteHeader) ==> (rb.wroteHeader && rb.status == status)
 //@   ensures [streams_with_same_status] (!old(rb.wroteHeader) && rb.stream) ==> (wh == old(wh) + 1 && lastStatus == status)
@@ -92,7 +92,7 @@ package httpserver
 //@   ensures [streaming_hands_headers_over_once] (!old(rb.wroteHeader) && rb.stream) ==> headerCopies == old(headerCopies) + 1
 //@ func (*ResponseBuffer).Write
 //@   requires rb != nil && rb.ResponseWriterWrapper != nil && rb.ResponseWriterWrapper.ResponseWriter != nil && rb.shouldBuffer != nil && rb.Buffer != nil
-//@   modifies ghost:headerCopies, ghost:wh, ghost:lastStatus, ResponseBuffer.wroteHeader, ResponseBuffer.status, ResponseBuffer.stream
+//@   modifies ghost:headerCopies, ghost:wh, ghost:lastStatus, ResponseBuffer.wroteHeader, ResponseBuffer.status, ResponseBuffer.stream, MV:map[string][]string, MD:map[string][]string
 //@   ensures [header_decided] rb.wroteHeader
 //@   ensures [commit_at_most_once] wh <= old(wh) + 1 && (old(rb.wroteHeader) ==> wh == old(wh))
 //@   ensures [implicit_200] !old(rb.wroteHeader) ==> rb.status == 200
@@ -115,7 +115,7 @@ package httpserver
 //@ extern (*sync.Pool).Put
 //@ func (*ResponseBuffer).ReadFrom
 //@   requires rb != nil && rb.ResponseWriterWrapper != nil && rb.ResponseWriterWrapper.ResponseWriter != nil && rb.shouldBuffer != nil && rb.Buffer != nil
-//@   modifies ghost:headerCopies, ghost:wh, ghost:lastStatus, ghost:bufferedCopies, ghost:directCopies, ResponseBuffer.wroteHeader, ResponseBuffer.status, ResponseBuffer.stream
+//@   modifies ghost:headerCopies, ghost:wh, ghost:lastStatus, ghost:bufferedCopies, ghost:directCopies, ResponseBuffer.wroteHeader, ResponseBuffer.status, ResponseBuffer.stream, MV:map[string][]string, MD:map[string][]string
 //@   ensures [header_decided] rb.wroteHeader
 //@   ensures [streaming_body_goes_to_the_client] rb.stream ==> (directCopies == old(directCopies) + 1 && bufferedCopies == old(bufferedCopies))
 //@   ensures [buffered_body_goes_to_the_buffer] !rb.stream ==> (bufferedCopies == old(bufferedCopies) + 1 && directCopies == old(directCopies))
@@ -965,6 +965,22 @@ package httpserver
 //@   loop 1 invariant forallT(a, string, has(groups, a) ==> forall(k, 0, len(groups[a]), groups[a][k] != nil))
 //@   loop 1 invariant forall(k, 0, len(configs), configs[k] == old(configs[k]))
 //@   loop 1 invariant forall(k, 0, len(configs), configs[k].Limits.MaxRequestHeaderSize >= 0) ==> forallT(a, string, has(groups, a) ==> forall(k, 0, len(groups[a]), groups[a][k].Limits.MaxRequestHeaderSize >= 0))
+
+//@ unit helper_frames2 frames=on props=C20,C08 nilchecks=on filter=`httpserver\.parseSyslogAddress$|httpserver\.ResponseBuffer\)\.CopyHeader$`
+//@ // two helpers that other units call through thin contracts, verified against the frame they really have: the syslog
+//@ // address parser writes nothing (unit logger_start assumes so); CopyHeader writes the underlying writer's header map
+//@ // and nothing else (unit response_buffer counts its calls with a ghost and reads no header map afterwards)
+//@ use @verif/specs/stdlib.spec:stdlib
+//@ invariant remoteSyslogPrefixes != nil
+//@ func parseSyslogAddress
+//@ extern invoke:(net/http.ResponseWriter).Header
+//@   ensures result != nil
+//@ func (*ResponseWriterWrapper).Header
+//@   requires rww != nil
+//@   ensures result != nil
+//@ func (*ResponseBuffer).CopyHeader
+//@   requires rb != nil && rb.ResponseWriterWrapper != nil
+//@   modifies MV:map[string][]string, MD:map[string][]string
 
 //@ unit recorder_readout frames=on props=C20 nilchecks=on verify_pure=on filter=`httpserver\.NewResponseRecorder$|httpserver\.ResponseRecorder\)\.(Size|Status)$`
 //@ // C20 "{status} and {size} are what was sent": a new recorder starts at status 200 (what net/http sends when a handler
